@@ -117,7 +117,16 @@ pub fn build_universe_with(
         if no_serialize {
             opts.response_derives = Some("Debug,PartialEq".into());
         }
-        let sdl = schema.to_sdl(&RenderKnobs::default());
+        // the SDL text varies in ways that must not matter: `extend type` blocks (also carrying `implements`),
+        // re-declared built-in scalars, default values on input fields
+        let knobs = RenderKnobs {
+            use_extend: rng.chance(30),
+            extend_implements: rng.chance(50),
+            sdl_builtin_scalars: rng.chance(15),
+            input_defaults: rng.chance(30),
+            ..RenderKnobs::default()
+        };
+        let sdl = schema.to_sdl(&knobs);
         let qtext = doc.render();
         let res = ctx.run(&sdl, false, &qtext, &opts);
         let lenient = res.lenient;
